@@ -1,4 +1,5 @@
 import builtins
+import contextlib
 import copy
 import copyreg
 import functools
@@ -316,11 +317,12 @@ def mutate_value(
         if not mutate_safe:
             value = protect_via_deepcopy(value)
             mutate_safe = True
-        for attr, attr_value in attrs.items():
-            if attr in used_attrs:
-                continue
-            if attr_value is not MISSING:
-                _set_attr(value, attr, attr_value, private_copy=not inplace)
+        with _restored_on_error(value, enabled=inplace):
+            for attr, attr_value in attrs.items():
+                if attr in used_attrs:
+                    continue
+                if attr_value is not MISSING:
+                    _set_attr(value, attr, attr_value, private_copy=not inplace)
     elif attrs:
         raise ValueError("Cannot use attrs on a missing value without a constructor.")
 
@@ -332,12 +334,31 @@ def mutate_value(
     if attr_transforms:
         if not mutate_safe:
             value = protect_via_deepcopy(value)
-        for attr, attr_transform in attr_transforms.items():
-            transformed_value = attr_transform(getattr(value, attr, MISSING))
-            if transformed_value is not MISSING:
-                _set_attr(value, attr, transformed_value, private_copy=not inplace)
+        with _restored_on_error(value, enabled=inplace):
+            for attr, attr_transform in attr_transforms.items():
+                transformed_value = attr_transform(getattr(value, attr, MISSING))
+                if transformed_value is not MISSING:
+                    _set_attr(value, attr, transformed_value, private_copy=not inplace)
 
     return value
+
+
+@contextlib.contextmanager
+def _restored_on_error(obj: Any, enabled: bool = True):
+    """
+    Several attributes of `obj` are about to be written one after the other,
+    directly on a live instance. If one of the writes fails, put back the
+    attributes already written, so that the failed call changes nothing.
+    """
+    state = getattr(obj, "__dict__", None) if enabled else None
+    saved_state = dict(state) if isinstance(state, dict) else None
+    try:
+        yield
+    except BaseException:
+        if saved_state is not None:
+            state.clear()
+            state.update(saved_state)
+        raise
 
 
 def _set_attr(obj: Any, attr: str, value: Any, private_copy: bool = False):
